@@ -464,10 +464,251 @@ pub fn invalidation_race(invalidators: usize, writers: usize, readers: usize, ro
     Outcome { evaluations: gets.len() as u64, nontrivial: decided, classes, sample: params, violation }
 }
 
+// ---- C05: time-to-live beside concurrent updates (real clock) ---------------------------
+
+pub fn ttl_race(ttl_ms: u64, nkeys: u64, readers: usize, rounds: u64) -> Outcome {
+    use std::time::{Duration, Instant};
+    let cache: Cache<u64, u64> = Cache::builder().time_to_live(Duration::from_millis(ttl_ms)).build();
+    let base = Instant::now();
+    let total = (rounds * nkeys + 2) as usize;
+    // per value: nanoseconds (since `base`) of an instant taken after its insert returned
+    let after: Arc<Vec<AtomicU64>> = Arc::new((0..total).map(|_| AtomicU64::new(0)).collect());
+    let done = Arc::new(AtomicBool::new(false));
+    let barrier = Arc::new(Barrier::new(nkeys as usize + readers));
+    let mut whs = Vec::new();
+    for k in 0..nkeys {
+        let (c, a, b) = (cache.clone(), Arc::clone(&after), Arc::clone(&barrier));
+        whs.push(std::thread::spawn(move || {
+            b.wait();
+            for r in 0..rounds {
+                let v = 1 + r * nkeys + k;
+                c.insert(k, v);
+                a[v as usize].store(base.elapsed().as_nanos() as u64 + 1, Ordering::SeqCst);
+                // let the value pass its deadline before it is replaced
+                std::thread::sleep(Duration::from_micros(ttl_ms * 1000 + 300 + (r % 7) * 50));
+            }
+        }));
+    }
+    let ttl_ns = ttl_ms * 1_000_000;
+    let mut rhs = Vec::new();
+    for _ in 0..readers {
+        let (c, a, b, d) = (cache.clone(), Arc::clone(&after), Arc::clone(&barrier), Arc::clone(&done));
+        rhs.push(std::thread::spawn(move || {
+            b.wait();
+            let mut hits = 0u64;
+            let mut near = 0u64;
+            let mut bad: Option<String> = None;
+            let mut i = 0u64;
+            while !d.load(Ordering::Acquire) {
+                i += 1;
+                let k = i % nkeys;
+                let t0 = base.elapsed().as_nanos() as u64;
+                if let Some(v) = c.get(&k) {
+                    hits += 1;
+                    let ia = a[v as usize].load(Ordering::SeqCst);
+                    if ia != 0 {
+                        if t0 >= ia + ttl_ns {
+                            bad = Some(format!("get(k{k}) began {} ns after the insert of value {v} had returned, with time_to_live = {} ms, and still returned it", t0 - ia, ttl_ns / 1_000_000));
+                            break;
+                        }
+                        if t0 + 200_000 >= ia + ttl_ns {
+                            near += 1;
+                        }
+                    }
+                }
+            }
+            (hits, near, bad)
+        }));
+    }
+    for h in whs {
+        h.join().expect("writer");
+    }
+    done.store(true, Ordering::Release);
+    let (mut hits, mut near, mut bad) = (0, 0, None);
+    for h in rhs {
+        let (x, n, b) = h.join().expect("reader");
+        hits += x;
+        near += n;
+        if bad.is_none() {
+            bad = b;
+        }
+    }
+    let params = serde_json::json!({"workload": "ttl_race", "ttl_ms": ttl_ms, "keys": nkeys, "readers": readers, "rounds": rounds, "get_hits": hits, "hits_within_200us_of_the_deadline": near});
+    let violation = bad.map(|m| viol("C05", m, params.clone()));
+    let mut classes = BTreeMap::new();
+    classes.insert("hits_within_200us_of_the_deadline".to_string(), near);
+    Outcome { evaluations: hits, nontrivial: near, classes, sample: params, violation }
+}
+
+/// Same idea on the mock clock (no sleeping, so tens of thousands of generations): the
+/// writer advances the clock by exactly the time-to-live, publishes the generation
+/// number, then replaces the value. Value g is written at reading g*ttl; a get that
+/// started after generation g+1 was published runs at a reading >= (g+1)*ttl.
+pub fn ttl_generations(readers: usize, generations: u64) -> Outcome {
+    use std::time::Duration;
+    let ttl = Duration::from_secs(1);
+    let cache: Cache<u8, u64> = Cache::builder().time_to_live(ttl).build();
+    let clock = cache.verif_set_clock();
+    let tick = Arc::new(AtomicU64::new(0));
+    let done = Arc::new(AtomicBool::new(false));
+    cache.insert(0u8, 0u64);
+    let mut rhs = Vec::new();
+    for _ in 0..readers {
+        let (c, t, d) = (cache.clone(), Arc::clone(&tick), Arc::clone(&done));
+        rhs.push(std::thread::spawn(move || {
+            let mut hits = 0u64;
+            let mut fresh = 0u64;
+            let mut bad = None;
+            while !d.load(Ordering::SeqCst) {
+                let seen = t.load(Ordering::SeqCst);
+                if let Some(g) = c.get(&0u8) {
+                    hits += 1;
+                    if g < seen {
+                        bad = Some(format!("a get that started at a clock reading >= {} x ttl returned the value written at reading {g} x ttl", seen));
+                        break;
+                    }
+                    if g == seen {
+                        fresh += 1;
+                    }
+                }
+            }
+            (hits, fresh, bad)
+        }));
+    }
+    for g in 1..=generations {
+        clock.advance(ttl);
+        tick.store(g, Ordering::SeqCst);
+        std::hint::spin_loop();
+        cache.insert(0u8, g);
+        if g % 97 == 0 {
+            use mini_moka::sync::ConcurrentCacheExt;
+            cache.sync();
+        }
+    }
+    done.store(true, Ordering::SeqCst);
+    let (mut hits, mut fresh, mut bad) = (0, 0, None);
+    for h in rhs {
+        let (x, f, b) = h.join().expect("reader");
+        hits += x;
+        fresh += f;
+        if bad.is_none() {
+            bad = b;
+        }
+    }
+    let params = serde_json::json!({"workload": "ttl_generations", "readers": readers, "generations": generations, "get_hits": hits});
+    let violation = bad.map(|m| viol("C05", m, params.clone()));
+    let mut classes = BTreeMap::new();
+    classes.insert("hits_of_the_current_generation".to_string(), fresh);
+    Outcome { evaluations: hits.max(generations), nontrivial: generations, classes, sample: params, violation }
+}
+
+// ---- C04 / C08 / C10 / C11: mixed real-thread workload, state oracles after quiescence ---
+
+pub fn mixed(prop: &str, threads: usize, ops: u64, nkeys: u32, cap: Option<u64>, weigher: bool, ttl_ms: Option<u64>, seed: u64) -> Outcome {
+    use crate::subject::{build_sync_cache, sync_snapshot, weight_of};
+    use crate::track::{Reg, TK, TV};
+    use crate::types::*;
+    use mini_moka::sync::ConcurrentCacheExt;
+    let cfg = Cfg { kind: Kind::Sync, cap, weigher: if weigher { WeigherKind::Value } else { WeigherKind::None }, ttl: ttl_ms.map(|m| m * MS), tti: None, hasher: HasherKind::Sip, init_cap: None, nkeys };
+    let reg = Reg::new();
+    let cache = build_sync_cache(&cfg);
+    let barrier = Arc::new(Barrier::new(threads));
+    let seqs = Arc::new(AtomicU64::new(0));
+    let mut hs = Vec::new();
+    for t in 0..threads {
+        let (c, r, b, sq) = (cache.clone(), Arc::clone(&reg), Arc::clone(&barrier), Arc::clone(&seqs));
+        hs.push(std::thread::spawn(move || {
+            let mut x = splitmix(seed ^ ((t as u64) << 24));
+            b.wait();
+            for _ in 0..ops {
+                x = splitmix(x);
+                let k = (x % nkeys as u64) as u32;
+                match (x >> 20) % 100 {
+                    0..=44 => {
+                        let s = sq.fetch_add(1, Ordering::Relaxed) as u32;
+                        c.insert(TK::new(k, &r), TV::new(s, ((x >> 40) % 4) as u32, &r));
+                    }
+                    45..=79 => {
+                        let _ = c.get(&TK::new(k, &r));
+                    }
+                    80..=91 => c.invalidate(&TK::new(k, &r)),
+                    92..=93 => c.invalidate_all(),
+                    94..=96 => c.sync(),
+                    _ => {
+                        let _ = c.iter().count();
+                    }
+                }
+            }
+        }));
+    }
+    let mut panicked = false;
+    for h in hs {
+        if h.join().is_err() {
+            panicked = true;
+        }
+    }
+    let params = serde_json::json!({"workload": "mixed", "threads": threads, "ops_per_thread": ops, "keys": nkeys, "max_capacity": cap, "weigher": weigher, "ttl_ms": ttl_ms, "seed": seed});
+    let mut violation = None;
+    if panicked {
+        if prop == "C08" {
+            violation = Some(viol("C08", "a worker thread panicked inside the library during the mixed workload".into(), params.clone()));
+        }
+        return Outcome { evaluations: 1, nontrivial: 0, classes: BTreeMap::new(), sample: params, violation };
+    }
+    cache.sync();
+    if ttl_ms.is_some() {
+        // let everything written at the end pass its deadline too, then purge
+        std::thread::sleep(std::time::Duration::from_millis(ttl_ms.unwrap() + 5));
+        cache.sync();
+    }
+    let snap = sync_snapshot(&cache);
+    let phys_w: u64 = snap.entries.iter().map(|e| weight_of(&cfg, e.w_val) as u64).sum();
+    match prop {
+        "C10" => {
+            if snap.entry_count != snap.entries.len() as u64 || snap.weighted_size != phys_w {
+                violation = Some(viol("C10", format!("after {threads} threads stopped and sync() ran: entry_count()/weighted_size() = {}/{} but the cache physically holds {} entries weighing {}", snap.entry_count, snap.weighted_size, snap.entries.len(), phys_w), params.clone()));
+            }
+        }
+        "C04" => {
+            if let Some(c) = cap {
+                if phys_w > c {
+                    violation = Some(viol("C04", format!("after {threads} threads stopped and sync() ran the resident weight {phys_w} exceeds max_capacity {c}"), params.clone()));
+                }
+            }
+        }
+        "C11" => {
+            let (lk, lv, n) = (reg.live_keys(), reg.live_vals(), snap.entries.len());
+            if reg.double_drop() {
+                violation = Some(viol("C11", "a key or value object was dropped twice".into(), params.clone()));
+            } else if lk != n || lv != n {
+                violation = Some(viol("C11", format!("after {threads} threads stopped and sync() ran: {n} entries are resident but {lk} key objects and {lv} value objects are alive"), params.clone()));
+            }
+        }
+        "C08" => {
+            if let Err(e) = cache.verif_walk(true) {
+                violation = Some(viol("C08", format!("structural walk failed after the mixed real-thread workload: {e}"), params.clone()));
+            } else if reg.double_drop() {
+                violation = Some(viol("C08", "a key or value object was dropped twice".into(), params.clone()));
+            }
+        }
+        _ => {}
+    }
+    let n_after = snap.entries.len() as u64;
+    drop(cache);
+    if violation.is_none() && prop == "C11" && (reg.live_keys() != 0 || reg.live_vals() != 0) {
+        violation = Some(viol("C11", format!("after dropping the last handle {} key objects and {} value objects are still alive", reg.live_keys(), reg.live_vals()), params.clone()));
+    }
+    let mut classes = BTreeMap::new();
+    classes.insert("mixed_runs_with_residents_left".to_string(), (n_after > 0) as u64);
+    Outcome { evaluations: threads as u64 * ops, nontrivial: threads as u64 * ops / 64, classes, sample: params, violation }
+}
+
 // ---- worker ---------------------------------------------------------------------------
 
 pub const RULE_C04: &str = "real threads inserting distinct fresh unit-weight keys without sync while a monitor thread counts the residents at moments when no insert call is in progress (a gate makes the count atomic); every count must stay <= max_capacity + 384 (the write queue); evaluations = samples taken; non-trivial = samples that observed more than max_capacity resident entries (a real overshoot)";
 pub const RULE_C16: &str = "k writer threads overwrite a fixed key set with increasing per-writer sequence numbers while m threads run full iterations; every pass must yield each key exactly once and never an older value of the same writer than an earlier pass; evaluations = passes; non-trivial = passes during which >= 1 key changed its value";
+pub const RULE_MIXED: &str = "real threads issue seeded insert/get/invalidate/invalidate_all/sync/iterate on a small key set (small capacity, weigher, optional real-time ttl); after all threads stopped and sync() ran the state oracle of the property is evaluated (counters vs. physical snapshot / capacity / drop registry / structural walker); evaluations = operations issued; non-trivial is counted per 64 operations issued concurrently (every block races with the other threads' blocks)";
+pub const RULE_C05: &str = "real clock, time_to_live of a few ms: one writer per key replaces its value just after the previous one has expired while reader threads spin on get; a get that began (wall clock) at or after the instant the returned value's insert had returned + ttl is a violation; evaluations = successful gets; non-trivial = successful gets within 200 us of the value's deadline; plus the same race on the mock clock: the writer steps the clock by exactly the ttl before each replacement (60 000 generations), non-trivial = generations";
 pub const RULE_C07: &str = "real threads: invalidators call invalidate_all in a loop, writers overwrite a small key set (syncing now and then), readers get; real clock; a get that began (logical counter) after an invalidate_all had returned must not show a value whose insert had returned (wall-clock instant) before that invalidate_all was called; evaluations = successful gets; non-trivial = successful gets that began after at least one completed invalidate_all";
 pub const RULE_C02: &str = "4-16 real threads issue seeded get/insert/invalidate/sync on 1-4 keys; logical timestamps from a shared atomic counter bracket every call; same history oracle as the schedule engine; evaluations = successful gets checked; non-trivial = gets that returned a value written by another thread";
 
@@ -499,6 +740,21 @@ pub fn stress_worker(a: &WorkerArgs) -> WorkerResult {
             let (cap, th) = plans[a.idx as usize % 4];
             let o = overshoot(cap + x % 3, th, 15_000 * scale);
             add(o, &mut res, 1);
+            if res.violation.is_none() {
+                let o = mixed("C04", 4 + a.idx as usize % 4, 8_000 * scale, 6, Some(3 + a.idx % 3), true, None, x);
+                add(o, &mut res, 6);
+            }
+        }
+        "C08" | "C10" | "C11" => {
+            let plans: [(usize, u32, Option<u64>, bool, Option<u64>); 4] = [(4, 3, Some(2), true, None), (8, 6, Some(4), true, None), (6, 4, None, false, Some(3)), (3, 2, Some(1), false, None)];
+            let (th, nk, cap, wg, ttl) = plans[a.idx as usize % 4];
+            for round in 0..2u64 {
+                let o = mixed(&a.prop, th, 8_000 * scale, nk, cap, wg, ttl, splitmix(x ^ round));
+                add(o, &mut res, 7 + round);
+                if res.violation.is_some() {
+                    break;
+                }
+            }
         }
         "C16" => {
             let plans: [(u64, usize, usize, Option<usize>, bool); 4] = [(64, 2, 2, None, false), (1000, 4, 2, Some(0), true), (7, 1, 4, Some(7), false), (5000, 8, 1, None, true)];
@@ -509,6 +765,16 @@ pub fn stress_worker(a: &WorkerArgs) -> WorkerResult {
             if res.violation.is_none() {
                 let o = iterate_beside_writers(1, 2, 2, 20_000 * scale, None, false);
                 add(o, &mut res, 3);
+            }
+        }
+        "C05" => {
+            let plans: [(u64, u64, usize); 4] = [(2, 1, 3), (1, 2, 2), (3, 1, 2), (2, 2, 4)];
+            let (ttl, nk, rd) = plans[a.idx as usize % 4];
+            let o = ttl_race(ttl, nk, rd, 150 * scale);
+            add(o, &mut res, 11);
+            if res.violation.is_none() {
+                let o = ttl_generations(2 + a.idx as usize % 3, 60_000 * scale);
+                add(o, &mut res, 12);
             }
         }
         "C07" => {
@@ -542,6 +808,9 @@ pub fn replay(found: &Found) -> Option<crate::exec::Violation> {
             Some("overshoot") => overshoot(g("max_capacity"), g("inserting_threads") as usize, g("inserts_per_thread")),
             Some("iterate_beside_writers") => iterate_beside_writers(g("keys"), g("writers") as usize, g("iterators") as usize, g("rounds_per_writer"), p.get("initial_capacity").and_then(|v| v.as_u64()).map(|n| n as usize), p.get("bounded").and_then(|v| v.as_bool()).unwrap_or(false)),
             Some("invalidation_race") => invalidation_race(g("invalidators") as usize, g("writers") as usize, g("readers") as usize, g("rounds"), g("keys")),
+            Some("ttl_generations") => ttl_generations(g("readers") as usize, g("generations")),
+            Some("ttl_race") => ttl_race(g("ttl_ms"), g("keys"), g("readers") as usize, g("rounds")),
+            Some("mixed") => mixed(&found.property, g("threads") as usize, g("ops_per_thread"), g("keys") as u32, p.get("max_capacity").and_then(|v| v.as_u64()), p.get("weigher").and_then(|v| v.as_bool()).unwrap_or(false), p.get("ttl_ms").and_then(|v| v.as_u64()), g("seed")),
             Some("coherence") => coherence(g("threads") as usize, g("ops_per_thread"), g("keys") as u8, g("seed"), p.get("max_capacity").and_then(|v| v.as_u64())),
             _ => return None,
         };
@@ -550,5 +819,15 @@ pub fn replay(found: &Found) -> Option<crate::exec::Violation> {
             break;
         }
     }
-    worst.map(|f| crate::exec::Violation { prop: if found.property == "C04" { "C04" } else if found.property == "C16" { "C16" } else if found.property == "C07" { "C07" } else { "C02" }, step: 0, msg: f.message })
+    let prop: &'static str = match found.property.as_str() {
+        "C04" => "C04",
+        "C05" => "C05",
+        "C16" => "C16",
+        "C07" => "C07",
+        "C08" => "C08",
+        "C10" => "C10",
+        "C11" => "C11",
+        _ => "C02",
+    };
+    worst.map(|f| crate::exec::Violation { prop, step: 0, msg: f.message })
 }
